@@ -451,7 +451,7 @@ func scC13(spot bool) Scenario {
 			// neither an error nor the end of the stream: acceptable only while the client is pacing samples
 			pacing := false
 			for _, g := range clientGoroutines() {
-				if bytes.Contains([]byte(g), []byte("handleData")) {
+				if bytes.Contains([]byte(g), []byte("handleData")) || bytes.Contains([]byte(g), []byte("verifsim.(*Run).Hook")) {
 					pacing = true
 				}
 			}
